@@ -3,9 +3,11 @@ package harness
 import (
 	"crypto/sha256"
 	"encoding/hex"
+	"encoding/json"
 	"fmt"
 	tmtypes "github.com/tendermint/tendermint/types"
 	"math/big"
+	"os"
 	"sort"
 	"strconv"
 	"strings"
@@ -21,12 +23,14 @@ import (
 	endpointcontract "github.com/teleport-network/teleport/syscontracts/xibc_endpoint"
 	packetcontract "github.com/teleport-network/teleport/syscontracts/xibc_packet"
 	aggtypes "github.com/teleport-network/teleport/x/aggregate/types"
+	"github.com/teleport-network/teleport/x/xibc"
 	xibctmtypes "github.com/teleport-network/teleport/x/xibc/clients/light-clients/tendermint/types"
 	tsstypes "github.com/teleport-network/teleport/x/xibc/clients/tss-client/types"
 	clienttypes "github.com/teleport-network/teleport/x/xibc/core/client/types"
 	commitmenttypes "github.com/teleport-network/teleport/x/xibc/core/commitment/types"
 	"github.com/teleport-network/teleport/x/xibc/core/host"
 	packettypes "github.com/teleport-network/teleport/x/xibc/core/packet/types"
+	xibctypes "github.com/teleport-network/teleport/x/xibc/types"
 )
 
 // World is a set of teleport chains connected pairwise by tendermint light
@@ -128,7 +132,7 @@ func NewWorldAccts(names []string, acctsOf func(string) []Acct) *World {
 			}
 			wr := w.deployERC20(c)
 			w.Wrap[n][d] = wr
-			must(c.App.AggregateKeeper.RegisterERC20Trace(c.Ctx(), wr, strings.ToLower(w.Origin[d].String()), w.ID[d], 0))
+			must(c.App.AggregateKeeper.RegisterERC20Trace(c.Ctx(), wr, strings.ToLower(w.Origin[d].String()), w.ID[d], worldScale()))
 			r := c.DeliverEth(c.Accts[AcctUser], addrp(wr), nil, mustPack(erc20ABI, "approve", endpAddr, big.NewInt(1_000_000)))
 			if !r.OK() {
 				panic("approve failed")
@@ -280,6 +284,7 @@ func (w *World) Commit(n string) int {
 	c.EndBlock()
 	c.App.Commit()
 	DetRecord(fmt.Sprintf("commit|%x", c.App.LastCommitID().Hash), nil)
+	c.MaybeRestart()
 	c.Now = w.Now.Add(w.Skew[n])
 	c.Header.Height = c.App.LastBlockHeight() + 1
 	c.Header.Time = c.Now
@@ -298,6 +303,32 @@ func (w *World) Commit(n string) int {
 	}
 	w.Snap[n] = append(w.Snap[n], snap)
 	return len(w.AbsH[n]) - 1
+}
+
+// Regenesis restarts chain n's xibc module from its own exported genesis: export, JSON round trip, validation, the
+// module store emptied, InitGenesis (what a chain restarted from an exported genesis file runs).
+func (w *World) Regenesis(n string) (res string, msg string) {
+	c := w.Chains[n]
+	defer func() {
+		if r := recover(); r != nil {
+			res, msg = "panic", fmt.Sprint(r)
+		}
+	}()
+	gs := xibc.ExportGenesis(c.Ctx(), *c.App.XIBCKeeper)
+	bz, err := c.App.AppCodec().MarshalJSON(gs)
+	if err != nil {
+		return "err", "marshal: " + err.Error()
+	}
+	var back xibctypes.GenesisState
+	if err := c.App.AppCodec().UnmarshalJSON(bz, &back); err != nil {
+		return "err", "unmarshal: " + err.Error()
+	}
+	if err := back.Validate(); err != nil {
+		return "err", "validate: " + err.Error()
+	}
+	xibc.ResetStates(c.Ctx(), c.App.GetKey(host.StoreKey), *c.App.XIBCKeeper)
+	xibc.InitGenesis(c.Ctx(), *c.App.XIBCKeeper, false, &back)
+	return "ok", ""
 }
 
 // Supply limits of the endpoint contract (governance proposals of the aggregate module).
@@ -490,7 +521,7 @@ func (w *World) Send(s SendSpec) TxResult {
 		}
 	}
 	data := packettypes.CrossChainData{DstChain: dstID, TokenAddress: token, Receiver: recv, Amount: big.NewInt(s.Amt),
-		ContractAddress: contractAddr, CallData: cd, CallbackAddress: zeroAddr, FeeOption: 0}
+		ContractAddress: contractAddr, CallData: cd, CallbackAddress: zeroAddr, FeeOption: feeOptionOf(s)}
 	if s.Callback {
 		data.CallbackAddress = w.Origin[s.Src] // a contract that does not implement the acknowledgement callback
 	}
@@ -633,9 +664,9 @@ func (w *World) harvestPacket(attrs []abciAttr, ack bool) {
 	for _, a := range attrs {
 		switch string(a.Key) {
 		case "src_chain":
-			src = strings.Trim(string(a.Value), "\"")
+			src = attrString(a.Value)
 		case "dst_chain":
-			dst = strings.Trim(string(a.Value), "\"")
+			dst = attrString(a.Value)
 		case "sequence":
 			seqs = strings.Trim(string(a.Value), "\"")
 		case "packet":
@@ -657,6 +688,15 @@ func (w *World) harvestPacket(attrs []abciAttr, ack bool) {
 		h := sha256.Sum256(pkt)
 		w.SentHash[hex.EncodeToString(h[:])] = k
 	}
+}
+
+// attrString: the value of a typed-event attribute holding a string (JSON: <, > and & arrive as \u003c ...)
+func attrString(v []byte) string {
+	var s string
+	if json.Unmarshal(v, &s) == nil {
+		return s
+	}
+	return strings.Trim(string(v), "\"")
 }
 
 // RecvSpec / AckSpec describe a relayer message derived from a sent packet and an alteration.
@@ -688,6 +728,8 @@ func (w *World) alterPacket(bz []byte, alt string) ([]byte, packettypes.Packet) 
 		p.Sequence++
 	case "sender":
 		p.Sender = strings.ToLower(w.Marker.String())
+	case "feeopt":
+		p.FeeOption ^= 7 // the fee option the sender chose, rewritten
 	case "src":
 		p.SrcChain = p.SrcChain + "x"
 	case "dst":
@@ -945,11 +987,12 @@ func (w *World) Project(n string) M {
 		seq[d] = ns
 		cseq[d] = w.viewBig(c, packetABI, packetAddr, "getNextSequenceSend", did)
 		out[d] = w.viewBig(c, endpointABI, endpAddr, "outTokens", w.Origin[n], did)
-		bind[d] = w.bindAmount(c, w.Wrap[n][d], did)
-		wbal[d] = w.viewBig(c, erc20ABI, w.Wrap[n][d], "balanceOf", user.Eth)
-		wsup[d] = w.viewBig(c, erc20ABI, w.Wrap[n][d], "totalSupply")
-		wlock[d] = w.viewBig(c, erc20ABI, w.Wrap[n][d], "balanceOf", endpAddr) + w.viewBig(c, erc20ABI, w.Wrap[n][d], "balanceOf", packetAddr) +
-			w.viewBig(c, erc20ABI, w.Wrap[n][d], "balanceOf", common.HexToAddress(syscontracts.AgentContractAddress))
+		// wrapped tokens are bound with a scale: 10^scale wrapped units stand for one unit of the origin token
+		bind[d] = unscale(w.bindAmount(c, w.Wrap[n][d], did))
+		wbal[d] = unscale(w.viewBig(c, erc20ABI, w.Wrap[n][d], "balanceOf", user.Eth))
+		wsup[d] = unscale(w.viewBig(c, erc20ABI, w.Wrap[n][d], "totalSupply"))
+		wlock[d] = unscale(w.viewBig(c, erc20ABI, w.Wrap[n][d], "balanceOf", endpAddr) + w.viewBig(c, erc20ABI, w.Wrap[n][d], "balanceOf", packetAddr) +
+			w.viewBig(c, erc20ABI, w.Wrap[n][d], "balanceOf", common.HexToAddress(syscontracts.AgentContractAddress)))
 		for s := int64(1); s < ns; s++ {
 			status = append(status, []interface{}{n, d, s, w.viewBig(c, packetABI, packetAddr, "getAckStatus", did, uint64(s))})
 			fo, err := c.View(packetABI, packetAddr, "packetFees", []byte(did+"/"+strconv.FormatInt(s, 10)))
@@ -1009,4 +1052,34 @@ func (w *World) ValueDigest(n string) string {
 // FullDigest covers everything a rejected message must leave unchanged.
 func (w *World) FullDigest(n string) string {
 	return w.Chains[n].Digest("xibc", "evm", "bank", "aggregate", "staking", "gov", "distribution", "ibc", "transfer")
+}
+
+// unscale maps an amount of wrapped units to origin units (-999: not a whole number of origin units)
+func unscale(v int64) int64 {
+	f := int64(1)
+	for i := uint8(0); i < worldScale(); i++ {
+		f *= 10
+	}
+	if v < 0 {
+		return v
+	}
+	if v%f != 0 {
+		return -999
+	}
+	return v / f
+}
+
+// worldScale: the scale with which wrapped tokens are bound to their origin (VERIF_XIBC_SCALE, default 0)
+func worldScale() uint8 {
+	n, _ := strconv.Atoi(os.Getenv("VERIF_XIBC_SCALE"))
+	return uint8(n)
+}
+
+// feeOptionOf: the fee option of a send is an ordinary argument of endpoint.crossChainCall carried in the packet and
+// echoed in the acknowledgement; sends that pay a fee choose option 7, the others the default 0
+func feeOptionOf(s SendSpec) uint64 {
+	if s.Fee > 0 {
+		return 7
+	}
+	return 0
 }
